@@ -131,7 +131,12 @@ func c16store(rep *core.Report, sh shape, authMode string, mutateBodies bool) {
 			add("GET", "/api/v1/chain/header/"+h+"/"+h2+"/ancestor", "", "", "odd")
 		}
 		add("DELETE", "/api/v1/access/"+h, "", "", "odd")
+		// the same path parameters with a query string behind them (no route reads one there)
+		add("GET", "/api/v1/chain/header/"+h+"?x=1&verbose=", "", "", "odd")
+		add("GET", "/api/v1/chain/header/state/"+h+"?"+strings.Repeat("q", 2000)+"=1", "", "", "odd")
+		add("DELETE", "/api/v1/access/"+h+"?x=1", "", "", "odd")
 	}
+	add("GET", "/api/v1/nosuch/"+big+"?x=1", "", "", "odd")
 	for _, a := range ints {
 		for _, b := range ints {
 			cls := "odd"
@@ -159,7 +164,21 @@ func c16store(rep *core.Report, sh shape, authMode string, mutateBodies bool) {
 	for i := range manyMR {
 		manyMR[i] = mr{longest.Raw.Merkle.Hex(), i}
 	}
+	// lists far longer than any limit a storage driver has on bound parameters (SQLite: 32766)
+	hugeN := 33000
+	hugeCA := make([]string, hugeN)
+	hugeMR := make([]mr, hugeN)
+	for i := range hugeCA {
+		hugeCA[i] = longest.Hash
+		hugeMR[i] = mr{longest.Raw.Merkle.Hex(), longest.Height}
+	}
+	if sh.name == "fork+stale" && authMode == "off" {
+		caBodies = append(caBodies, j(hugeCA))
+	}
 	vfBodies := []string{j([]mr{{longest.Raw.Merkle.Hex(), longest.Height}}), j([]mr{{stale.Raw.Merkle.Hex(), stale.Height}, {orphan.Raw.Merkle.Hex(), 1}}), j([]mr{{"", 0}}), j([]mr{{longest.Raw.Merkle.Hex(), -1}}), j([]mr{{longest.Raw.Merkle.Hex(), 2147483647}}), `[{"merkleRoot":"ab","blockHeight":2147483648}]`, `[{"merkleRoot":"ab","blockHeight":1.5}]`, `[{}]`, j([]mr{{big, 1}}), j(manyMR)}
+	if sh.name == "fork+stale" && authMode == "off" {
+		vfBodies = append(vfBodies, j(hugeMR))
+	}
 	whBodies := []string{`{"url":"http://h.example/a","requiredAuth":{"type":"bearer","token":"t"}}`, `{"url":"http://h.example/a","requiredAuth":{"type":"bearer","token":"t"}}`, `{"url":"http://h.example/b"}`, `{"url":""}`, `{"requiredAuth":{"type":"bearer"}}`, `{"url":"` + big + `"}`, `{"url":"http://h.example/c","requiredAuth":{"type":"custom_header","header":"","token":""}}`}
 	for _, ct := range []string{"application/json", "text/plain"} {
 		for _, b := range append(append([]string{}, genericBodies...), caBodies...) {
